@@ -111,6 +111,13 @@ Proof.
         (conj (proj2 (proj2 ex_self_only_from)) ex_self_runs))))).
 Qed.
 
+Example C10_hypotheses_satisfiable :
+  enabled (vals ex_self_s0) ex_gate = true /\ enabled (vals (cycles ex_self 1 ex_self_s0)) ex_gate = false /\
+  registered_once (with_drivers ex_self ex_other_table) /\
+  ex_other_table = [ {| d_enable := Some 1%nat; d_leaves := [2%nat] |} ] ++ ex_gate :: [] /\
+  only_from (with_drivers ex_self ex_other_table) ex_gate 0%nat /\ only_from (with_drivers ex_self ex_other_table) ex_gate 1%nat.
+Proof. exact (conj (proj1 ex_self_enable_values) (conj (proj2 ex_self_enable_values) ex_other_table_ok)). Qed.
+
 Example C10_tree_example :
   clock_buckets ex_tree = Some [(9%nat, [0%nat; 2%nat]); (7%nat, [3%nat; 4%nat])] /\
   clock_buckets (HNode None false [HNode None true []]) = None /\
